@@ -176,13 +176,13 @@ class BlockRec(e7.Recogniser):
         while e[0] == "un" and e[1] == "Not":
             e = e[2]
             tt, ft = ft, tt
-        if e[0] == "call" and e[1] == e7.STR + "is_empty":
+        if e[0] == "call" and e[1] in (e7.STR + "is_empty", "str::is_empty") and e7.buf_id(e[2][0]) is not None:
             b = e7.buf_id(e[2][0])
             return (("empty", b), [(TRUE, tt), (FALSE, ft)])
         if e[0] == "call" and e[1] in ("std::cmp::PartialEq::eq", "std::cmp::PartialEq::ne") or (e[0] == "call" and e[1] and e[1].startswith("<" + CHOMP + " as std::cmp::PartialEq")):
             # chomping ==/!= <constant variant>
             blk = f.blocks[e[3]]["term"]
-            a0 = cfg.expr_operand(f, blk["args"][0], 4)
+            a0 = cfg.strip_reborrow(cfg.expr_operand(f, blk["args"][0], 10))
             v = promoted_variant(f, blk["args"][1])
             if self._raw_chomp_ref(blk["args"][0]) or (a0[0] == "ref" and a0[1][0] in ("phi", "local") and a0[1][1] in self.chomps):
                 if v is None:
